@@ -95,7 +95,7 @@ PROPS["C09"] = dict(
     trusted_base=_CTL_TB, assumptions=_CTL_ASSUME,
     level_text="Kernel-checked (Props/C09.lean) over Core.step/sendReq for every 32-bit counter value: wire sequence = low 24 bits = transaction key, so the response "
                "carrying the request's sequence number always matches; requests < 2^24 apart have distinct sequence numbers; expiry retransmits the identical message "
-               "while count < N, then abandons; at most 1+N transmissions; matching response releases; unmatched responses and stale expiries change nothing. Tie: S-ctl. answered_then_stale_timeout — when the response overtakes the queued timeout of a timer that has fired, the request is retired and the stale timeout does nothing (no retransmission after the answer); tx_timeout_keeps_rx.",
+               "while count < N, then abandons; at most 1+N transmissions; matching response releases; unmatched responses and stale expiries change nothing. Tie: S-ctl. answered_then_stale_timeout — when the response overtakes the queued timeout of a timer that has fired, the request is retired and the stale timeout does nothing (no retransmission after the answer); tx_timeout_keeps_rx; rx_timeout_keeps_tx / rx_timeouts_keep_tx — no run of retention expiries, whatever keys they carry, retries or abandons a request or sends anything (external predicate on the implementation: an expiry concerns the kind of transaction its timer was started for).",
     level_note="Trusted: Lean kernel; model of pfcp.go:273-283,153-175 and transaction.go:57-109 (checked against the code each run); timers are injected events.",
 )
 
@@ -147,8 +147,10 @@ PROPS["C10"] = dict(
          "sessions and known / unknown URRs with every measurement-method x MNOP combination; node ids IPv4 and IPv6",
     trusted_base=_CTL_TB, assumptions=_CTL_ASSUME,
     level_text="Kernel-checked (Props/C10.lean): a usage batch for a live session is answered by exactly one Session Report Request to the owner with the peer's SEID; "
-               "each IE carries URR id, trigger and measured values unchanged, measurement IEs selected by method/MNOP; unknown sessions/URRs dropped without touching "
-               "the rest; groups_keys_nodup / mem_seids / groups_own / groupOf_other / groups_total — for every REPORT multicast (any number of reports, sessions interleaved in any way) "
+               "each IE carries URR id, trigger and measured values unchanged, measurement IEs selected by method/MNOP; each_ie_from_its_report / ies_le_reports — in a message carrying any number "
+               "of usage reports every IE has the id, trigger word (plus the carrier's flag only), counters, times and duration of ONE of the reports handed over, and there are no more IEs than reports; "
+               "report_goes_to_owner — whatever a notification carries (downlink-data reports and usage reports in any number and order) every datagram it causes goes to the destination of the node owning the reporting session at that moment, none elsewhere; "
+               "unknown sessions/URRs dropped without touching the rest; groups_keys_nodup / mem_seids / groups_own / groupOf_other / groups_total — for every REPORT multicast (any number of reports, sessions interleaved in any way) "
                "each session with a report gets exactly one notification carrying exactly its own reports in message order, independent of the other sessions' reports, nothing lost or doubled "
                "(Model/Krep.lean, the function the krep driver runs). External predicate on the ctl stream: every usage report sent is one the data plane produced for that session in this event, "
                "carried as measured (URR id, trigger, times, counters, duration; IEs by method/MNOP), none missing in a Session Report Request; and a Session Report Request goes to the node that owns the session "
@@ -179,6 +181,8 @@ PROPS["C12"] = dict(
                "remove_pdr_final_once / update_pdr_final_once — hence a Remove / Update PDR the data plane accepts queries exactly the URRs that lose their last referring PDR, once each, in whatever "
                "order the map iteration takes (diassociateAll_ref by a loop invariant over the environment-chosen order); detach_last / detach_not_last / detach_at_zero_silent, remove_flags_termr, "
                "query_flags_immer for the flags; recreate_live_pdr_breaks — the negation for a Create PDR on a live id (known finding). "
+               "Session deletion (Lemmas/CoreDel.lean): deletion_final_once — after ANY such history (no freshness hypothesis) Sess.Close issues exactly one REMOVE_URR for every URR the session knows and none "
+               "for any other id, for every iteration order and answer stream (the URR table never holds an id twice: run_keys); deletion_all_termr — every report deletion hands back is flagged TERMR; close_allRemoved + deletion_response_once — the Session Deletion Response carries exactly one usage-report IE per URR that had anything to report, however many records the data plane returned for it. "
                "Tie: S-ctl 'urr' in lock-step, with two external predicates on the implementation's own output: (a) a URR that loses its last referring PDR in a request (as the accepted requests say) "
                "is queried exactly once and its reports come back flagged TERMR; (b) in every table dump the recorded count of each URR equals the number of PDRs whose recorded list names it.",
     level_note="PARTIAL in one respect: the history theorem needs 'no Create PDR for a live PDR id' — without it the property is false of the code (known finding recreatePdrLive, witnessed on every run "
@@ -190,9 +194,14 @@ PROPS["C07"] = dict(
              dict(name="drv", args=["corpus=/verif/corpus/drvmal.lines"], shards=2, shards_thorough=4, seed_per_shard=True)],
     rule="ctl 'mix' (junk, truncated, unknown-type datagrams inside valid histories, SEIDs at all boundary classes) + malformed stream: structure-aware mutations of "
          "valid PFCP messages (header fields, IE lengths, nested IEs, flag octets, ids) after valid prefixes, liveness probe after each datagram; drv: rule IEs (well-formed, C-TAG/S-TAG outer header creation, damaged copies) through the real gtp5g driver",
-    trusted_base=_CTL_TB, assumptions=_CTL_ASSUME,
+    trusted_base=_CTL_TB + ["Gen/Guards.lean regenerated from /repo by tools/extract (go/ast): per exported *Gtp5g method handed a *ie.IE, whether its body starts with `defer ieFault(&<named error result>)`; "
+                            "whether ieFault calls recover() in its own body and stores the error — Go's defer / recover semantics as modelled by `guarded` are trusted"],
+    assumptions=_CTL_ASSUME,
     level_text="PARTIAL. Kernel-checked layer 1 (Props/C07.lean): all table accesses in range for every SEID in every reachable state, step total, heartbeat always answered, "
-               "unaddressed sessions intact. Layer 2 (go-pfcp decoding) is searched, not proved: malformed-datagram stream with panic/exit hooks and heartbeat probe.",
+               "unaddressed sessions intact. Layer 2 (go-pfcp decoding) is searched, not proved: malformed-datagram stream with panic/exit hooks and heartbeat probe. "
+               "Layer 2 on the gtp5g driver path is structural: over facts regenerated from the source on every run, every entry point that walks the content of a rule IE (Create*/Update* of PDR/FAR/QER/URR/BAR) "
+               "starts with the recovering guard (driver_walks_guarded, guard_is_a_guard), the only unguarded ones read the rule id only (unguarded_read_id_only), and a guarded call never hands a fault to the event loop "
+               "(guarded_never_faults, under the modelled defer/recover semantics); the damaged-IE stream observes the same on the real driver.",
     level_note="Not proved: go-pfcp message/IE decoders and go-gtp5gnl (third-party). The gtp5g driver's IE walk is searched too: S-drv hands the real Gtp5g.Create*/Update* every rule IE of its generator, "
                "Outer Header Creation IEs with C-TAG / S-TAG, and a damaged copy (truncated, flipped, lengths changed) of 40% of the rule IEs — a fault there is a C07 failure. "
                "Repaired (fix 715caca): go-pfcp's OuterHeaderCreation accessor panics on a C-TAG / S-TAG field; one Create FAR took the UPF down.",
@@ -259,7 +268,7 @@ PROPS["C03"] = dict(
     trusted_base=_DRV_TB, assumptions=_DRV_ASSUME + ["Measurement Period as a kernel attribute is outside the statement (the periodic server, not the kernel, times the reports)"],
     level_text="Kernel-checked (Props/C03.lean): for EVERY QER/URR/BAR content and every arrangement the request reads back exactly: gate, 40-bit MBR/GBR (rate_split: high32*256+low8 = rate, "
                "UL under UL, DL under DL), QFI, RQI, PPI, correlation id; method, info, trigger word (little-endian widening of 2/3 octets), threshold/quota flags with each volume under its flag; "
-               "BAR delay and packet count; Create URR registers (seid, urr, period) with the periodic server iff PERIO is set. Tie: S-drv + reader on the implementation's bytes + perio dump.",
+               "BAR delay and packet count; Create URR registers (seid, urr, period) with the periodic server iff PERIO is set; create_again_keeps_registration — the same Create URR arriving again while the rule is live (refused by the kernel) leaves the periodic server's state, and what every tick queries, unchanged. Tie: S-drv + reader on the implementation's bytes + perio dump (also after a second, refused Create URR).",
     level_note="Trusted: as C02. Known finding (recorded): Update URR never changes the periodic registration. Fixed: BAR delay truncation.",
 )
 
